@@ -107,6 +107,21 @@ def check(ctx):
             raise AnalysisError(f"anchor vanished: ListOfDicts.{name} (listed as non-modifying by the statement)")
     ctx.count("yield sites", n_yields, 20)
 
+    # an editing generator method is marked AFTER its generator has run: obsoletes must wrap new_from_generator (be listed
+    # first); the other way round the wrapper marks the receiver when the generator object is merely created, and the
+    # body's own attribute lookups on self then print the warning during the editing call itself
+    n_both = 0
+    for m in cls.methods.values():
+        names = [d for d in m.decorators if d]
+        if "dataiter.deco.obsoletes" in names and "dataiter.deco.new_from_generator" in names:
+            n_both += 1
+            ok = names.index("dataiter.deco.obsoletes") < names.index("dataiter.deco.new_from_generator")
+            ctx.ob("EFF-2", m, f"decorator order of {m.name}: {[n.split('.')[-1] for n in names]}", m.node, ok,
+                   "the receiver is marked obsolete after the edited list has been built" if ok else
+                   f"{m.name} lists new_from_generator above obsoletes: the receiver is marked obsolete before the generator body runs, so "
+                   f"the body's own use of self prints the one-time warning inside the editing call and the caller's next use is silent",
+                   clause="print the warning exactly once on their next use")
+    ctx.count("methods that both edit and build a new list", n_both, 3)
     # ------------------------------------------------------------ EFF-state
     # A ListOfDicts keeps no item-derived state: its items are plain mutable dicts shared with other lists, so no cache
     # stored on the list could ever be invalidated when an item is edited.  The only attributes its methods assign are
